@@ -667,6 +667,8 @@ func Unscheduled(t *tr.W, r *rand.Rand, n int) {
 	}
 }
 
+var rangeNil atomic.Int64
+
 func unscheduledBody(t *tr.W, r *rand.Rand, n int) {
 	lru.VerifYield = nil
 	for i := 0; i < n; i++ {
@@ -685,14 +687,41 @@ func unscheduledBody(t *tr.W, r *rand.Rand, n int) {
 		}
 		var vid atomic.Int64
 		doneCh := make(chan struct{})
+		storm := i%5 == 2
+		if storm {
+			// one goroutine walks the index over and over while the others replace and evict entries
+			// (every Put evicts: capacity 3, sizes 1..2): whatever Range hands out must be a stored value
+			nkeys, cap = 8, 3
+			w = newWorld(cap)
+			wg.Add(1)
+			go func() {
+				defer wg.Done()
+				for j := 0; j < 30000; j++ {
+					w.c.Range(func(k int, v *val) bool {
+						if v == nil {
+							rangeNil.Store(int64(k) + 1)
+						}
+						return true
+					})
+				}
+			}()
+		}
 		for k := 0; k < nth; k++ {
 			wg.Add(1)
 			go func(seed int64) {
 				defer wg.Done()
 				rr := rand.New(rand.NewSource(seed))
-				for j := 0; j < 400; j++ {
+				nops := 400
+				if storm {
+					nops = 15000
+				}
+				for j := 0; j < nops; j++ {
 					key := rr.Intn(nkeys)
-					switch rr.Intn(8) {
+					sel := rr.Intn(8)
+					if storm && sel > 4 {
+						sel = rr.Intn(3)
+					}
+					switch sel {
 					case 0, 1, 2:
 						v := &val{id: int(vid.Add(1)), size: 1 + uint64(rr.Intn(int(min(cap, 8)))), bad: new(atomic.Bool)}
 						w.c.Put(key, v)
@@ -701,7 +730,13 @@ func unscheduledBody(t *tr.W, r *rand.Rand, n int) {
 					case 4:
 						w.c.LoadAndDelete(key)
 					case 5:
-						w.c.Range(func(int, *val) bool { return true })
+						// a visitor must be handed the value that was stored under the key
+						w.c.Range(func(k int, v *val) bool {
+							if v == nil {
+								rangeNil.Store(int64(k) + 1)
+							}
+							return true
+						})
 					case 6:
 						w.c.Len()
 					default:
@@ -717,6 +752,9 @@ func unscheduledBody(t *tr.W, r *rand.Rand, n int) {
 			t.Op("dump", w.dump())
 		case <-time.After(5 * time.Second):
 			t.Op("status", "HANG")
+		}
+		if k := rangeNil.Swap(0); k != 0 {
+			t.Op("status", fmt.Sprintf("RANGE-NO-VALUE Range handed its visitor key %d without a value", k-1))
 		}
 		t.Hit("free.case")
 	}
